@@ -497,12 +497,20 @@ def _clean_up_state(state: State) -> None:
 
     # Remove all old flow states based on last status update to limit their number
     # TODO: Refactor, we need to have reference based clean up approach
+    # An ended flow is still needed as long as a flow that it started is running or activated:
+    # it is the parent link that bounds the lifetime of that flow
+    needed_parent_uids = {
+        flow_state.parent_uid
+        for flow_state in state.flow_states.values()
+        if not _is_done_flow(flow_state) or flow_state.activated != 0
+    }
     states_to_be_removed = []
     for flow_state in state.flow_states.values():
         if (
             _is_done_flow(flow_state)
             and (datetime.now() - flow_state.status_updated) > timedelta(seconds=5)
             and flow_state.activated == 0
+            and flow_state.uid not in needed_parent_uids
         ):
             states_to_be_removed.append(flow_state.uid)
     for flow_state_uid in states_to_be_removed:
